@@ -500,13 +500,7 @@ func (w *worker[T, JobType]) goListenToContext() {
 
 		// Restart cancels the context of the previous run by itself and installs a new one:
 		// only the listener of the worker's current context stops the worker
-		w.mx.RLock()
-		current := w.ctx == c
-		w.mx.RUnlock()
-
-		if current {
-			w.Stop()
-		}
+		w.stop(c)
 	}(w.ctx)
 }
 
@@ -682,10 +676,26 @@ func (w *worker[T, JobType]) Pause() error {
 }
 
 func (w *worker[T, JobType]) Stop() error {
+	return w.stop(nil)
+}
+
+// stop stops the worker; when called for a context (by its listener) only if that context is
+// still the worker's current one once no other Stop or Restart is in progress.
+func (w *worker[T, JobType]) stop(listened context.Context) error {
 	// Stop and Restart tear down and rebuild the same channels, goroutines and status:
 	// they must not interleave (e.g. the context listener's Stop with a Restart)
 	w.lifecycleMx.Lock()
 	defer w.lifecycleMx.Unlock()
+
+	if listened != nil {
+		w.mx.RLock()
+		current := w.ctx == listened
+		w.mx.RUnlock()
+
+		if !current {
+			return nil
+		}
+	}
 
 	switch s := w.status.Load(); s {
 	case stopped:
